@@ -44,7 +44,7 @@ func funcKey(fn *types.Func) string {
 var droppedPrefixes = []string{
 	"sync.(*Mutex).", "sync.(*RWMutex).", "sync.(*WaitGroup).",
 	"go.uber.org/zap.", "github.com/ava-labs/avalanchego/utils/logging.",
-	"go.opentelemetry.io/otel/trace.Span.", "github.com/ava-labs/avalanchego/trace.Tracer.",
+	"go.opentelemetry.io/otel/trace.Span.", "github.com/ava-labs/avalanchego/trace.Tracer.", "go.opentelemetry.io/otel/trace.Tracer.",
 	"github.com/prometheus/client_golang/prometheus.",
 	"go.opentelemetry.io/otel/attribute.",
 	"github.com/ava-labs/avalanchego/utils/timer.(*Timer).",
@@ -185,6 +185,19 @@ func (f *Frame) execCallStmt(call *ast.CallExpr, st *State, k func(*State, []Val
 							}
 						}
 					}
+				}
+			}
+		}
+	}
+	// a method promoted from an embedded interface, called through a named interface that has its
+	// own contract for it (state.Mutable.GetValue vs state.Immutable.GetValue): the static receiver
+	// type's contract wins
+	if recvT != nil {
+		if named, ok := types.Unalias(recvT).(*types.Named); ok && named.Obj().Pkg() != nil {
+			if _, isIface := named.Underlying().(*types.Interface); isIface {
+				alt := named.Obj().Pkg().Path() + "." + named.Obj().Name() + "." + fn.Name()
+				if alt != key && in.W.contractFor(alt) != nil {
+					key = alt
 				}
 			}
 		}
